@@ -874,6 +874,189 @@ fn values_misc(st: &mut Stats, rng: &mut Rng) {
     }
 }
 
+// ---------------------------------------------------------------------------------------------
+// (c) model shards: real compiled bytes vs `encode W_<T>`, real re-read field values vs `decode R_<T>`
+// ---------------------------------------------------------------------------------------------
+#[derive(Clone, Debug)]
+enum V {
+    Z(i128),
+    Absent,
+    Arr(Vec<Vec<V>>),
+}
+fn cv(v: &V) -> String {
+    match v {
+        V::Z(z) => format!("VZ {}", cz(*z)),
+        V::Absent => "VAbsent".into(),
+        V::Arr(rows) => format!("VArr {}", clist(rows.iter(), |r| format!("VTab {}", clist(r.iter(), cv)))),
+    }
+}
+fn cvs(vs: &[V]) -> String {
+    clist(vs.iter(), cv)
+}
+fn zu16(x: u16) -> V {
+    V::Z(x as i128)
+}
+fn zi16(x: i16) -> V {
+    V::Z(x as u16 as i128)
+}
+fn opt16(x: Option<u16>) -> V {
+    x.map(zu16).unwrap_or(V::Absent)
+}
+fn scal(xs: impl IntoIterator<Item = u16>) -> V {
+    V::Arr(xs.into_iter().map(|x| vec![zu16(x)]).collect())
+}
+
+/// compile with the real writer, read back with the real reader, push one Coq case
+fn shard<T>(st: &mut Stats, cw: &mut CaseWriter, ty: &str, v: &T, written: Vec<V>, reread: &dyn Fn(&[u8]) -> Option<Vec<V>>)
+where
+    T: FontWrite + Validate,
+{
+    let bytes = match catch(AssertUnwindSafe(|| dump_table(v))) {
+        Ok(Ok(b)) => b,
+        _ => {
+            st.count("shard.not-compiled");
+            return;
+        }
+    };
+    let rr = match catch(AssertUnwindSafe(|| reread(&bytes))) {
+        Ok(Some(r)) => r,
+        _ => {
+            st.count("shard.not-reread");
+            return;
+        }
+    };
+    st.count(&format!("shard.{}", ty));
+    st.evaluations += 1;
+    cw.push(format!("(W_{}, R_{}, {}, {}, {})", ty, ty, cvs(&written), cbytes(&bytes), cvs(&rr)));
+}
+
+fn shards(st: &mut Stats, cw: &mut CaseWriter, rng: &mut Rng, thorough: bool) {
+    use write_fonts::read::tables as rt;
+    let reps = if thorough { 400 } else { 40 };
+    let r16 = |rng: &mut Rng| -> u16 {
+        match rng.below(4) {
+            0 => *rng.pick(&[0u16, 1, 2, 255, 256, 32767, 32768, 65534, 65535]),
+            _ => rng.next_u32() as u16,
+        }
+    };
+    let len = |rng: &mut Rng| -> usize { *rng.pick(&[0usize, 0, 1, 1, 2, 3, 5, 9]) };
+    for _ in 0..reps {
+        // maxp: version gate (0.5 / 1.0)
+        {
+            let mut m = wt::maxp::Maxp::new(r16(rng));
+            let v1 = rng.chance(1, 2);
+            let mut f = |rng: &mut Rng| if v1 { Some(r16(rng)) } else { None };
+            m.max_points = f(rng);
+            m.max_contours = f(rng);
+            m.max_composite_points = f(rng);
+            m.max_composite_contours = f(rng);
+            m.max_zones = f(rng);
+            m.max_twilight_points = f(rng);
+            m.max_storage = f(rng);
+            m.max_function_defs = f(rng);
+            m.max_instruction_defs = f(rng);
+            m.max_stack_elements = f(rng);
+            m.max_size_of_instructions = f(rng);
+            m.max_component_elements = f(rng);
+            m.max_component_depth = f(rng);
+            // `version` is hand-computed (Opaque in the extracted schema): its value is supplied
+            let ver: i128 = if v1 { 0x0001_0000 } else { 0x0000_5000 };
+            let w = vec![V::Z(ver), zu16(m.num_glyphs), opt16(m.max_points), opt16(m.max_contours), opt16(m.max_composite_points), opt16(m.max_composite_contours), opt16(m.max_zones), opt16(m.max_twilight_points), opt16(m.max_storage), opt16(m.max_function_defs), opt16(m.max_instruction_defs), opt16(m.max_stack_elements), opt16(m.max_size_of_instructions), opt16(m.max_component_elements), opt16(m.max_component_depth)];
+            shard(st, cw, "Maxp", &m, w, &|b| {
+                let t = rt::maxp::Maxp::read(FontData::new(b)).ok()?;
+                Some(vec![V::Z(u32::from_be_bytes(t.version().to_be_bytes()) as i128), zu16(t.num_glyphs()), opt16(t.max_points()), opt16(t.max_contours()), opt16(t.max_composite_points()), opt16(t.max_composite_contours()), opt16(t.max_zones()), opt16(t.max_twilight_points()), opt16(t.max_storage()), opt16(t.max_function_defs()), opt16(t.max_instruction_defs()), opt16(t.max_stack_elements()), opt16(t.max_size_of_instructions()), opt16(t.max_component_elements()), opt16(t.max_component_depth())])
+            });
+        }
+        // hhea: literals, signed scalars
+        {
+            let h = wt::hhea::Hhea {
+                ascender: FWord::new(r16(rng) as i16),
+                descender: FWord::new(r16(rng) as i16),
+                line_gap: FWord::new(r16(rng) as i16),
+                advance_width_max: UfWord::new(r16(rng)),
+                min_left_side_bearing: FWord::new(r16(rng) as i16),
+                min_right_side_bearing: FWord::new(r16(rng) as i16),
+                x_max_extent: FWord::new(r16(rng) as i16),
+                caret_slope_rise: r16(rng) as i16,
+                caret_slope_run: r16(rng) as i16,
+                caret_offset: r16(rng) as i16,
+                number_of_h_metrics: r16(rng),
+            };
+            let w = vec![V::Z(0), zi16(h.ascender.to_i16()), zi16(h.descender.to_i16()), zi16(h.line_gap.to_i16()), zu16(h.advance_width_max.to_u16()), zi16(h.min_left_side_bearing.to_i16()), zi16(h.min_right_side_bearing.to_i16()), zi16(h.x_max_extent.to_i16()), zi16(h.caret_slope_rise), zi16(h.caret_slope_run), zi16(h.caret_offset), V::Z(0), V::Z(0), V::Z(0), V::Z(0), V::Z(0), zu16(h.number_of_h_metrics)];
+            shard(st, cw, "Hhea", &h, w, &|b| {
+                let t = rt::hhea::Hhea::read(FontData::new(b)).ok()?;
+                let ver = t.version();
+                // the four reserved words have no getter: read through the table's own byte ranges
+                let raw = |r: std::ops::Range<usize>| V::Z(u16::from_be_bytes([b[r.start], b[r.start + 1]]) as i128);
+                let sh = t.shape();
+                Some(vec![V::Z(((ver.major as i128) << 16) | ver.minor as i128), zi16(t.ascender().to_i16()), zi16(t.descender().to_i16()), zi16(t.line_gap().to_i16()), zu16(t.advance_width_max().to_u16()), zi16(t.min_left_side_bearing().to_i16()), zi16(t.min_right_side_bearing().to_i16()), zi16(t.x_max_extent().to_i16()), zi16(t.caret_slope_rise()), zi16(t.caret_slope_run()), zi16(t.caret_offset()), raw(sh.reserved1_byte_range()), raw(sh.reserved2_byte_range()), raw(sh.reserved3_byte_range()), raw(sh.reserved4_byte_range()), zi16(t.metric_data_format()), zu16(t.number_of_h_metrics())])
+            });
+        }
+        // Coverage 1 / 2, ClassDef 1 / 2: format literal + array_len count + (record) arrays
+        {
+            use wt::layout::*;
+            let n = len(rng);
+            let gl: Vec<u16> = (0..n).map(|_| r16(rng)).collect();
+            let c1 = CoverageFormat1::new(gl.iter().map(|g| gid(*g)).collect());
+            shard(st, cw, "CoverageFormat1", &c1, vec![V::Z(0), V::Z(0), scal(gl.clone())], &|b| {
+                let t = rt::layout::CoverageFormat1::read(FontData::new(b)).ok()?;
+                Some(vec![zu16(t.coverage_format()), zu16(t.glyph_count()), scal(t.glyph_array().iter().map(|g| g.get().to_u16()))])
+            });
+            let rr: Vec<(u16, u16, u16)> = (0..n).map(|_| (r16(rng), r16(rng), r16(rng))).collect();
+            let c2 = CoverageFormat2::new(rr.iter().map(|r| RangeRecord::new(gid(r.0), gid(r.1), r.2)).collect());
+            let rows = |it: Vec<(u16, u16, u16)>| V::Arr(it.into_iter().map(|r| vec![zu16(r.0), zu16(r.1), zu16(r.2)]).collect());
+            shard(st, cw, "CoverageFormat2", &c2, vec![V::Z(0), V::Z(0), rows(rr.clone())], &|b| {
+                let t = rt::layout::CoverageFormat2::read(FontData::new(b)).ok()?;
+                Some(vec![zu16(t.coverage_format()), zu16(t.range_count()), rows(t.range_records().iter().map(|r| (r.start_glyph_id().to_u16(), r.end_glyph_id().to_u16(), r.start_coverage_index())).collect())])
+            });
+            let start = r16(rng);
+            let d1 = ClassDefFormat1::new(gid(start), gl.clone());
+            shard(st, cw, "ClassDefFormat1", &d1, vec![V::Z(0), zu16(start), V::Z(0), scal(gl.clone())], &|b| {
+                let t = rt::layout::ClassDefFormat1::read(FontData::new(b)).ok()?;
+                Some(vec![zu16(t.class_format()), zu16(t.start_glyph_id().to_u16()), zu16(t.glyph_count()), scal(t.class_value_array().iter().map(|g| g.get()))])
+            });
+            let d2 = ClassDefFormat2::new(rr.iter().map(|r| ClassRangeRecord::new(gid(r.0), gid(r.1), r.2)).collect());
+            shard(st, cw, "ClassDefFormat2", &d2, vec![V::Z(0), V::Z(0), rows(rr.clone())], &|b| {
+                let t = rt::layout::ClassDefFormat2::read(FontData::new(b)).ok()?;
+                Some(vec![zu16(t.class_format()), zu16(t.class_range_count()), rows(t.class_range_records().iter().map(|r| (r.start_glyph_id().to_u16(), r.end_glyph_id().to_u16(), r.class())).collect())])
+            });
+            // SequenceRule: glyph_count = plus_one(len), read back with subtract(.., 1)
+            let m = len(rng);
+            let recs: Vec<(u16, u16)> = (0..m).map(|_| (r16(rng), r16(rng))).collect();
+            let sr = SequenceRule::new(gl.iter().map(|g| gid(*g)).collect(), recs.iter().map(|r| SequenceLookupRecord::new(r.0, r.1)).collect());
+            let rows2 = |it: Vec<(u16, u16)>| V::Arr(it.into_iter().map(|r| vec![zu16(r.0), zu16(r.1)]).collect());
+            shard(st, cw, "SequenceRule", &sr, vec![V::Z(0), V::Z(0), scal(gl.clone()), rows2(recs.clone())], &|b| {
+                let t = rt::layout::SequenceRule::read(FontData::new(b)).ok()?;
+                Some(vec![zu16(t.glyph_count()), zu16(t.seq_lookup_count()), scal(t.input_sequence().iter().map(|g| g.get().to_u16())), rows2(t.seq_lookup_records().iter().map(|r| (r.sequence_index(), r.lookup_list_index())).collect())])
+            });
+        }
+        // gasp (stored count: kept consistent here) and cmap 12 (u32 fields, hand-computed length)
+        {
+            use wt::gasp::*;
+            let n = len(rng);
+            let rg: Vec<(u16, u16)> = (0..n).map(|_| (r16(rng), rng.below(16) as u16)).collect();
+            let ver = rng.below(2) as u16;
+            let g = Gasp::new(ver, n as u16, rg.iter().map(|r| GaspRange::new(r.0, GaspRangeBehavior::from_bits_truncate(r.1))).collect());
+            let rows2 = |it: Vec<(u16, u16)>| V::Arr(it.into_iter().map(|r| vec![zu16(r.0), zu16(r.1)]).collect());
+            shard(st, cw, "Gasp", &g, vec![zu16(ver), zu16(n as u16), rows2(rg.clone())], &|b| {
+                let t = rt::gasp::Gasp::read(FontData::new(b)).ok()?;
+                Some(vec![zu16(t.version()), zu16(t.num_ranges()), rows2(t.gasp_ranges().iter().map(|r| (r.range_max_ppem(), r.range_gasp_behavior().bits())).collect())])
+            });
+            use wt::cmap::*;
+            let gr: Vec<(u32, u32, u32)> = (0..n).map(|_| (rng.next_u32(), rng.next_u32(), rng.next_u32())).collect();
+            let lang = rng.next_u32();
+            let c = Cmap12::new(lang, gr.iter().map(|r| SequentialMapGroup::new(r.0, r.1, r.2)).collect());
+            let rows3 = |it: Vec<(u32, u32, u32)>| V::Arr(it.into_iter().map(|r| vec![V::Z(r.0 as i128), V::Z(r.1 as i128), V::Z(r.2 as i128)]).collect());
+            // `length` is hand-computed (Opaque): 16 + 12 n, supplied with the value
+            shard(st, cw, "Cmap12", &c, vec![V::Z(0), V::Z(0), V::Z(16 + 12 * n as i128), V::Z(lang as i128), V::Z(0), rows3(gr.clone())], &|b| {
+                let t = rt::cmap::Cmap12::read(FontData::new(b)).ok()?;
+                let reserved = u16::from_be_bytes([b[2], b[3]]);
+                Some(vec![zu16(t.format()), zu16(reserved), V::Z(t.length() as i128), V::Z(t.language() as i128), V::Z(t.num_groups() as i128), rows3(t.groups().iter().map(|r| (r.start_char_code(), r.end_char_code(), r.start_glyph_id())).collect())])
+            });
+        }
+    }
+}
+
 fn main() {
     silence_panics();
     let args: Vec<String> = std::env::args().collect();
@@ -894,7 +1077,7 @@ fn main() {
     values_colr(&mut st);
     values_avar(&mut st);
     values_misc(&mut st, &mut rng);
-    let _ = thorough;
+    shards(&mut st, &mut cw, &mut rng, thorough);
     let shards = cw.finish();
     let _ = &mut cw;
     st.v.insert("shards".into(), shards.into());
